@@ -8,7 +8,9 @@ Inductive skind :=
 | KRun               (* the run that produced the Result *)
 | KScan              (* a scan of the Result (possibly concurrent with another) *)
 | KScanAfterDiscard  (* a scan after Discard: correct rows or an error *)
-| KUse.              (* a later Func over the Result; the program is base ++ consumer *)
+| KUse               (* a later Func over the Result; the program is base ++ consumer *)
+| KScanAcrossDiscard. (* a scanner opened before a Discard that keeps scanning after it:
+                         all the rows of the first evaluation, or an error *)
 
 Record step := mkStep { skindof : skind; sprog : list node; sobs : obs }.
 Definition case := list step.
@@ -20,6 +22,9 @@ Definition step_ok (s : step) : bool :=
   | KScanAfterDiscard =>
       (* either the rows of the first evaluation (recomputed or still there) or an error; never other rows *)
       is_error (oerr (sobs s)) || ok_rows_with (ref (sprog s)) (sobs s)
+  | KScanAcrossDiscard =>
+      let v := rvalue (ref (sprog s)) in
+      is_error (oscanerr (sobs s)) || (errc_eqb (oscanerr (sobs s)) EOk && scanned_ok (vordered v) (vshards v) (oscanned (sobs s)))
   | _ => ok_rows_with (ref (sprog s)) (sobs s)
   end.
 
